@@ -47,4 +47,19 @@ Field(p, c, sod) ==
     [] p = "compact_date"     -> PadTo(Dec(c.y), 4) \o Dec2(c.m) \o Dec2(c.d)
     [] p = "compact_datetime" -> PadTo(Dec(c.y), 4) \o Dec2(c.m) \o Dec2(c.d) \o Dec2(hh) \o Dec2(mi) \o Dec2(ss)
 AllFields(c, sod) == [k \in 1..Len(Patterns) |-> Field(Patterns[k], c, sod)]
+\* ---- closed form: days since 1970-01-01 of a civil date (era arithmetic, years >= 1970) ----
+\* MC_Calendar ties it to the automaton on every day it walks; trace specs use it to validate
+\* the civil fields of instants far beyond that range (the recorders' own arithmetic is not trusted)
+DaysFromCivil(y, m, d) ==
+  LET yy  == IF m <= 2 THEN y - 1 ELSE y
+      era == yy \div 400
+      yoe == yy - era * 400
+      mp  == (m + 9) % 12                          \* March = 0
+      doy == (153 * mp + 2) \div 5 + d - 1
+      doe == yoe * 365 + yoe \div 4 - yoe \div 100 + doy
+  IN era * 146097 + doe - 719468
+ValidCivil(c) == /\ c.y >= 1970 /\ c.m \in 1..12 /\ c.d \in 1..MonthLen(c.y, c.m)
+                 /\ c.day = DaysFromCivil(c.y, c.m, c.d)
+                 /\ c.wd = (c.day + 3) % 7
+                 /\ c.yd = c.day - DaysFromCivil(c.y, 1, 1) + 1
 =============================================================================
